@@ -158,3 +158,8 @@ Lemma map_snd_combine' {A B} (l : list A) (r : list B) : Datatypes.length l = Da
 Proof.
   revert r. induction l as [|a l IH]; intros [|b r] Hlen; cbn in *; try discriminate; [reflexivity|]. f_equal. apply IH. lia.
 Qed.
+
+Lemma map_fst_combine' {A B} (l : list A) (r : list B) : Datatypes.length l = Datatypes.length r -> map fst (combine l r) = l.
+Proof.
+  revert r. induction l as [|a l IH]; intros [|b r] Hlen; cbn in *; try discriminate; [reflexivity|]. f_equal. apply IH. lia.
+Qed.
